@@ -365,6 +365,13 @@ func checkC16(r *Run) int {
 			{Label: "all-parameter, config file with an empty document", FD: fd2, YAML: "---\n", Param: param},
 			{Label: "all-parameter, config file with an empty mapping", FD: fd2, YAML: "{}\n", Param: param},
 		}
+		// the same all-YAML configuration read from a path with blanks, and split with the list options as parameters
+		spaced := filepath.Join(r.Mod.Root, "neg", "My Project", "tf config")
+		os.MkdirAll(spaced, 0o755)
+		os.WriteFile(filepath.Join(spaced, "config file.yaml"), []byte(c2.YAML(nil, nil)), 0o644)
+		variants = append(variants,
+			&gExec{Label: "all-YAML, config path with blanks", FD: fd2, CfgPath: filepath.Join(spaced, "config file.yaml")},
+			&gExec{Label: "all-parameter, config path with blanks", FD: fd2, CfgPath: filepath.Join(spaced, "config file.yaml"), Param: param})
 		if len(params) == len(opts) {
 			r.runAll(append([]*gExec{ref2}, variants...), bin)
 			if ref2.Res.ExitCode != 0 || ref2.Res.Content() == "" {
